@@ -855,7 +855,7 @@ def check(prog, rep):
     rep.coverage_extra['partition_sites'] = nsites
     rep.coverage_extra['global_reductions'] = nred
     rep.floor('H7', 1)
-    rep.floor('H0-scalars', 8)
+    rep.floor('H0-scalars', 5)
     rep.floor('H-site', 25)
     rep.floor('H1', 16)
     rep.floor('H2', 8)
